@@ -185,7 +185,10 @@ type World struct {
 	Insts  []*Instance
 
 	NodeGates bool
-	Crypto    *Rng
+	// FatalIsCrash: a logging FATAL (os.Exit in production) is modelled as the
+	// death of the whole process at that instant instead of being recorded only
+	FatalIsCrash bool
+	Crypto       *Rng
 	Gen       *Gen
 
 	Violations []Violation
@@ -299,6 +302,13 @@ func initGlobal() {
 			if w != nil {
 				w.S.mu.Lock()
 				w.S.FatalExits = append(w.S.FatalExits, string(debug.Stack()))
+				if w.FatalIsCrash {
+					// logging FATAL ends the process: nothing of it runs on
+					w.S.CrashRequested = true
+					for _, inst := range w.Insts {
+						inst.Dead = true
+					}
+				}
 				w.S.mu.Unlock()
 			}
 			runtime.Goexit()
